@@ -46,7 +46,7 @@ FUNC_PROPS = {
     'Model.get_associated_assets_by_field_name': ('C01', 'C05', 'C02'),
     'LanguageGraph._get_attacks_for_asset_type': ('C03', 'C16', 'C01', 'C02'),   # the steps/expressions C01, C02 quantify over
     'LanguageGraph.get_association_by_fields_and_assets': ('C15', 'C18', 'C19'),      # used by the securiCAD loader
-    'LanguageGraph._get_variable_for_asset_type_by_name': ('C01', 'C03'),
+    'LanguageGraph._get_variable_for_asset_type_by_name': ('C01', 'C03', 'C02'),   # requirements of exist steps use variables
     'LanguageGraph._get_associations_for_asset_type': ('C15', 'C03'),
     'malVisitor.visitMal': ('C04', 'C17'),                       # includes are compiled (and rejected) from here
     'LanguageGraph.regenerate_graph': ('C15', 'C03'),            # C03 quantifies over language-graph regenerations
